@@ -255,9 +255,9 @@ def sort_idx_canonical(idx: Index):
                 idx.spin,
                 int(idx.name[1:]) if idx.name[1:] else 0,
                 idx.name[0],
-                hash(idx))
+                idx.dummy_index)
     else:  # necessary for subs to work correctly with simultaneous=True
-        return ('', 0, str(idx), hash(idx))
+        return ('', 0, str(idx), getattr(idx, "dummy_index", 0))
 
 
 def split_idx_string(str_tosplit: str) -> list[str]:
